@@ -529,6 +529,7 @@ def run(repo, chk):
                     bad = 'a declaration must be bound to the slot its initialiser was pushed to, after the initialiser was generated'
     chk.expect(bad is None, 'C01.S1', 'gen_stmts[Declaration]::bind after init', bad or '', GEN)
     c08.run(repo, Remap(chk, {'C08.L3': 'C01.S1'}))
+    fresh_function_state(repo, chk, gf)
     # assignment to a variable: value into the variable's own accessor
     for p, ev in gf.inlined('gen_stmts'):
         arms = [e.text for e in ev if e.kind == 'case' and not e.origin]
@@ -578,6 +579,29 @@ def run(repo, chk):
                f'the library routines: {lay[max(i_code, 0):max(i_code, 0) + 6]}', GEN)
     function_queue(repo, chk, gf)
     chk.not_decided = ['the output bytes of any particular program; wrap-around, truncation and the VM\'s arithmetic (see C09)']
+
+
+def fresh_function_state(repo, chk, gf, rule='C01.S1'):
+    """Every function body is generated from an empty local scope and a fresh checkpoint tracker: what gen_func binds to
+    self.local_vars / self.checkpoints must not be derived from their previous values (parameter slots of an earlier
+    function would otherwise shadow globals of the same name in later functions)."""
+    fn = gf.methods.get('gen_func')
+    if fn is None:
+        raise AnalysisError('CodeGen.gen_func not found')
+    for attr in ('local_vars', 'checkpoints'):
+        asg = [n for n in ast.walk(fn) if isinstance(n, ast.Assign) and any(src(t) == f'self.{attr}' for t in n.targets)]
+        first_use = min((n.lineno for n in ast.walk(fn) if isinstance(n, ast.Attribute) and n.attr == attr and src(n.value) == 'self'
+                         and isinstance(n.ctx, ast.Load)), default=None)
+        ok = bool(asg)
+        detail = 'never reset in gen_func'
+        if ok:
+            a = min(asg, key=lambda n: n.lineno)
+            uses_old = any(isinstance(x, ast.Attribute) and x.attr == attr and src(x.value) == 'self' for x in ast.walk(a.value))
+            empty_ctor = isinstance(a.value, ast.Call) and not a.value.args and not a.value.keywords
+            before_use = first_use is None or a.lineno <= first_use
+            ok = empty_ctor and not uses_old and before_use
+            detail = f'`{src(a)}`: must be a fresh empty object, bound before the first use'
+        chk.expect(ok, rule, f'gen_func::self.{attr} starts empty', detail, GEN)
 
 
 def function_queue(repo, chk, gf, rule='C01.A1'):
